@@ -127,4 +127,26 @@ CHECKS = {
    note='Partial: clock, HTTP and sqlite are runtime (a timeout is a Raise). gettransactions/getblock/address index not modelled. Six known findings (False or '
         'invented values at the error limit; pinned by an existing test so not repairable under the constraints). Closed under the global context.',
    technique='Coq proof (induction over provider lists) + exhaustive small-configuration differential correspondence'),
+ 'C14': dict(
+   text='Gallina model of BIP39 over index lists: spec_to_indices/spec_to_entropy from the BIP text for an arbitrary 32-byte hash, lib_* mirroring '
+        'Mnemonic.to_mnemonic/to_entropy through the five change_base conversions with their leading-zero rules. Theorems: bip39_roundtrip, '
+        'bip39_accept_canonical, bip39_checksum_mismatch_rejected (any hash), lib_is_bip39 for EVERY entropy of the five lengths including every '
+        'leading-zero pattern, lib_accepts_as_bip39, word_index_inverse/unknown_word_rejected for abstract NoDup lists, bundled_wordlists_ok (the nine '
+        'regenerated lists have 2048 distinct words, by vm_compute), seed_is_bip39 (PBKDF2/NFKD/UTF-8 as oracles). Tie: exhaustive leading-zero entropy '
+        'patterns, nine languages, unicode passphrases, single-word substitutions, Trezor vectors against an independent Python BIP39.',
+   design_ref='DESIGN.md section 6 C14, section 9',
+   note='PBKDF2, NFKD and UTF-8 are oracles (harness answers PBKDF2 queries with hashlib). The float math.log quotients of change_base are modelled as integer '
+        'division (revalidated each run). Two known findings (hexlike_entropy, from_passphrase_non_english); one defect repaired. Closed under the global context.',
+   technique='Coq proof (bit-regrouping lemmas, induction) + differential correspondence in nine languages'),
+ 'C09': dict(
+   text='Wallet key book model: spec_path from BIP44/49/84/45/48, lib_path_expand over WALLET_KEY_STRUCTURES and KEY_PATH templates regenerated from config.py, '
+        'key-book state machine (new_key, get_key, new_account, key_for_path, bulk creation, reopen). Theorems: path_is_documented (every table entry, '
+        'symbolic account/change/index), paths_injective, lib_derivation_is_bip32, key_material_is_derivation and no_repeats for EVERY reachable state '
+        '(induction over operation lists), restore_deterministic, reopen_changes_nothing. Tie: every key a real wallet hands out is recomputed from the '
+        'seed alone by the extracted model (own HMAC/curve/hash/address code) over histories with reopen and restores from seed, mnemonic, xprv and '
+        'account xpub, on all networks and witness types; independent Python BIP32/address oracle.',
+   design_ref='DESIGN.md section 6 C09, section 9',
+   note='Density of indices over implicit-only histories and watch-only/full agreement of public keys (needs ckd_commute, C03) are checked by the oracle, not '
+        'proved. Multisig key books are C10. Two defects repaired by fix: commits. Closed under the global context.',
+   technique='Coq proof (finite table facts by vm_compute + invariants over operation lists) + history differential against real wallets'),
 }
